@@ -11,8 +11,8 @@ use xml_info::{
     Attribute as InfoAttribute, Character as InfoCharacter, Comment as InfoComment,
     Document as InfoDocument, DocumentTypeDeclaration as InfoDocumentTypeDeclaration,
     Element as InfoElement, HasChildren as InfoHasChildren, HasContext as InfoHasContext,
-    HasQName as InfoHasQName, Namespace as InfoNamespace, Notation as InfoNotation,
-    ProcessingInstruction as InfoProcessingInstruction,
+    HasParent as InfoHasParent, HasQName as InfoHasQName, Namespace as InfoNamespace,
+    Notation as InfoNotation, ProcessingInstruction as InfoProcessingInstruction,
     UnexpandedEntityReference as InfoUnexpandedEntityReference,
 };
 
@@ -1771,7 +1771,7 @@ impl ElementMut for XmlElement {
             return Err(error::DomException::WrongDocumentErr)?;
         }
 
-        if new_attr.attribute.borrow().order() != 0 {
+        if new_attr.attribute.borrow().parent_id().is_some() {
             return Err(error::DomException::InuseAttributeErr)?;
         }
 
